@@ -83,8 +83,10 @@ def build(case):
     if case.get("ctrlz") and not case.get("after"):
         # a DOS end-of-file marker right after the last value of the file (no line break before it)
         rows_ = [ln for ln in a["lines"] if ln["t"] == "row"]
-        if rows_:
-            rows_[-1]["trail"] = "\x1a"
+        if rows_ and case["ctrlz"] == "line":
+            a["lines"].append({"t": "blank", "text": "\x1a"})  # ... or on a line of its own
+        elif rows_:
+            rows_[-1]["trail"] = " \x1a" if case["ctrlz"] == "blank" else "\x1a"
     if case.get("runon"):
         # FORTRAN-style fixed-width columns: a wide negative value runs into the value before it (100.50-110.50); the
         # file is read with accept_regexp_sub_recommendations=False, the documented switch for this kind of file
@@ -189,7 +191,9 @@ def grid(tier):
                                 yield dict(d=d, c=c, r=r, engine=engine, sign=sign, index="text")
                     for policy in ("all", "numbers-only"):
                         yield dict(d=d, c=c, r=r, engine=engine, sign="pos", null_policy=policy, noise=[[r // 2, "w"]])
-                    yield dict(d=d, c=c, r=r, engine=engine, sign="pos", ctrlz=True)
+                    for z in (True, "line", "blank"):
+                        yield dict(d=d, c=c, r=r, engine=engine, sign="pos", ctrlz=z)
+                        yield dict(d=d, c=c, r=r, engine=engine, sign="pos", ctrlz=z, final_nl=False)
                     if c >= 2:
                         yield dict(d=d, c=c, r=r, engine=engine, sign="pos", dlm="COMMA", empty_col=(d + r))
                     if c >= 3:
